@@ -171,6 +171,8 @@ structure Cfg where
   sealed : Bool := true
   noOpen : Bool := false
   allowDirectIo : Bool := true
+  /-- the writeback cache was negotiated at INIT -/
+  writeback : Bool := false
   deriving Repr, DecidableEq, Inhabited
 
 /-- `HandleData` -/
@@ -215,10 +217,15 @@ def sealCheckFallocate (fileSize off len mode : Nat) : Except Nat Unit :=
     else if op = FL_COLLAPSE || op = FL_INSERT then .error EPERM
     else .error EINVAL
 
+/-- `get_writeback_open_flags`: with the writeback cache on, write-only becomes read-write (the
+    kernel may read what it caches) and `O_APPEND` is cleared (the kernel resolves it) -/
+def wbFlags (wb : Bool) (fl : Flags) : Flags :=
+  if wb then { fl with acc := if fl.acc = 1 then 2 else fl.acc, append := false } else fl
+
 /-- `open_inode(inode, flags)`: the host open with `O_CREAT` dropped (`reopen_fd_through_proc`)
     and `O_DIRECT` dropped unless allowed -/
 def openFlags (cfg : Cfg) (fl : Flags) : Flags :=
-  { fl with creat := false, direct := fl.direct && cfg.allowDirectIo }
+  { wbFlags cfg.writeback fl with creat := false, direct := fl.direct && cfg.allowDirectIo }
 
 def openInode (cfg : Cfg) (st : St) (file : Nat) (fl : Flags) : St × Except Nat HFd × List HostCall :=
   let ofl := openFlags cfg fl
@@ -265,15 +272,15 @@ def stepCreate (cfg : Cfg) (st : St) (file : Nat) (fl : Flags) : Out :=
   | none =>
     -- create_file_excl creates it (O_TRUNC is harmless on a new file)
     let H := { st.host with size := upd st.host.size file (some 0) }
-    let fd := fdOf fl
-    let c := [HostCall.createExcl file fl]
+    let fd := fdOf (wbFlags cfg.writeback fl)
+    let c := [HostCall.createExcl file (wbFlags cfg.writeback fl)]
     if cfg.noOpen then { st := { st with host := H }, ret := .ok 0, calls := c }
     else
       { st := { st with host := H, handles := upd st.handles st.next (some { file := file, fd := fd, stored := fl }),
                         next := st.next + 1 },
         ret := .ok st.next, calls := c }
   | some _ =>
-    let c := [HostCall.createExcl file fl]
+    let c := [HostCall.createExcl file (wbFlags cfg.writeback fl)]
     if fl.excl then { st := st, ret := .error EEXIST, calls := c }
     else if cfg.sealed && fl.trunc then { st := st, ret := .error EPERM, calls := c }
     else
